@@ -162,8 +162,10 @@ func (s *Service) ScheduleJob(ctx context.Context,
 			job.stateLock.Lock()
 			if job.finalised.Load() {
 				job.stateLock.Unlock()
+				verifPoint(job, "GTCancelled")
 				s.log.Trace().Str("job", name).Time("scheduled", runtime).Msg("Cancel triggered; job not running")
 				finaliseJob(job)
+				verifPoint(job, "GKFinalised")
 				monitorJobCancelled(class)
 				break
 			}
